@@ -69,13 +69,23 @@ func PoolPick(n int) int {
 	return c
 }
 
-// registry of shim pools so the harness can empty them between runs
-var pools []interface{ Drain() }
+// registry of shim pools so the harness can empty them between runs (simulator state: norace, fixed size)
+var (
+	pools  [256]interface{ Drain() }
+	npools int
+)
 
-func RegisterPool(p interface{ Drain() }) { pools = append(pools, p) }
+//go:norace
+func RegisterPool(p interface{ Drain() }) {
+	if npools < len(pools) {
+		pools[npools] = p
+		npools++
+	}
+}
 
+//go:norace
 func DrainPools() {
-	for _, p := range pools {
-		p.Drain()
+	for i := 0; i < npools; i++ {
+		pools[i].Drain()
 	}
 }
